@@ -138,6 +138,9 @@ def write_member(z, m, workdir):
         z.writestr(memoryview(data), name)
     elif api == "writef-bytesio":
         z.writef(io.BytesIO(data), name)
+    elif api == "writef-buffered":
+        # a buffered reader without a file descriptor (what zipfile/tarfile hand out for their members)
+        z.writef(io.BufferedReader(io.BytesIO(data)), name)
     elif api == "writef-file":
         off = m.get("offset", 3)
         p = os.path.join(workdir, "src-%d.bin" % (abs(hash(name)) % 100000))
